@@ -20,7 +20,7 @@ name to the stack, so the fuel cannot run out before the stack check fires. The 
 (unreachable) reports `RecursingFragmentSpread`, so that `checkOp S D = []` never hides an unfinished walk.
 
 This is the code AFTER the `fix:` commits bb13114, 0076043, 20563f6, c5d2b9d, 276cf9e, f60edb6, 647d48b,
-4e8f5ac, ccd11d9 (see design-notes/C03.md): directives are checked at all eight executable locations, fragment
+4e8f5ac, ccd11d9, a341d33, and the fragment-definition-directive fix (see design-notes/C03.md): directives are checked at all eight executable locations, fragment
 definitions no operation spreads are walked on their own (`without_variable_checks`), variable defaults are
 checked, the interface-equals-interface fast path no longer skips the selection set, the subscription root
 is counted by response key.
@@ -148,6 +148,7 @@ def spreadHandler (S : Schema) (D : Doc) : Nat → SpreadHandler
     else match fragMap D name with
       | none => [(ErrKind.UnknownFragment, namePos)]
       | some f =>
+        checkDirectives S vars f.dirs "FRAGMENT_DEFINITION" ++
         match S.typeDef? f.cond with
         | none => []
         | some ct =>
@@ -252,7 +253,7 @@ def checkOperation (S : Schema) (D : Doc) (op : OperationDef) : List Diag :=
 
 /-- `check_fragment_definition` -/
 def checkFragmentDefinition (S : Schema) (D : Doc) (used : Bool) (f : FragmentDef) : List Diag :=
-  withoutVariableChecks (checkDirectives S none f.dirs "FRAGMENT_DEFINITION") ++
+  (if used then [] else withoutVariableChecks (checkDirectives S none f.dirs "FRAGMENT_DEFINITION")) ++
   match S.typeDef? f.cond with
   | none => [(ErrKind.UnknownType, f.condPos)]
   | some t =>
